@@ -442,7 +442,7 @@ func (nl *NodeList) GetNodeByID(id string) *Node {
 // See [Node.HashesMatch] for details on how hashes are compared.
 func (nl *NodeList) GetMatchingNode(node *Node) (*Node, error) {
 	// If the target node has hashes, look for it
-	foundNodes := map[string]*Node{}
+	foundNodes := map[*Node]*Node{}
 	if len(node.Hashes) > 0 {
 		hashIndex := nl.indexNodesByHash()
 		for algo, hashVal := range node.Hashes {
@@ -453,13 +453,13 @@ func (nl *NodeList) GetMatchingNode(node *Node) (*Node, error) {
 			// Collect all node where hashes match exactly
 			for _, n := range hashIndex[fmt.Sprintf("%d:%s", algo, hashVal)] {
 				// Ignore if we've seen the node
-				if _, ok := foundNodes[n.Id]; ok {
+				if _, ok := foundNodes[n]; ok {
 					continue
 				}
 
 				// Collect the node if hashes match
 				if n.HashesMatch(node.Hashes) {
-					foundNodes[n.Id] = n
+					foundNodes[n] = n
 				}
 			}
 		}
